@@ -207,3 +207,15 @@ Example lex_sane_example :
   lex_sane (table_of [] [] [] []) s = true
   /\ scan_regions (table_of [] [] [] []) s = [(4, 9, Some [114; 98]); (12, 28, Some [102]); (29, 32, None)].
 Proof. vm_compute. split; reflexivity. Qed.
+
+(* the same family on another VALID program (PEP 701 allows a newline inside a replacement field of a single-quoted
+   f-literal):  x = f<sq>{a}{ NL b}<sq> NL  — the lexer has the f-literal 4..15, the regular expression finds nothing
+   (open finding C14-fstring-newline-in-field) *)
+Definition fnl_witness : text :=
+  [120; 32; 61; 32; 102; 39; 123; 97; 125; 123; 10; 98; 125; 39; 10].
+
+Theorem fstring_newline_refuted :
+  ref_regions fnl_witness = [(4, 14, Some [102])]
+  /\ scan_regions (table_of [] [] [] []) fnl_witness = []
+  /\ lex_sane (table_of [] [] [] []) fnl_witness = false.
+Proof. vm_compute. repeat split; reflexivity. Qed.
